@@ -1,7 +1,10 @@
 import GlmVerif.Props.C18.Pow2U
+import GlmVerif.Props.C18.Pow2U64
 import GlmVerif.Props.C18.Pow2S
+import GlmVerif.Props.C18.Pow2S64
 import GlmVerif.Props.C18.Multiple
 import GlmVerif.Props.C18.Bits
+import GlmVerif.Props.C18.Bits64
 import GlmVerif.Props.C18.Rotate
 import GlmVerif.Props.C18.Interleave
 import GlmVerif.Props.C18.Gtx
